@@ -278,6 +278,8 @@ package transaction
 //@       (forall j int :: 0 <= j && j < len(arg_keys) ==> inDom(txn.aggressiveLockingContext.lastRetryUnnecessaryLocks, string(arg_keys[j]))) &&
 //@       arg_specifiedForUpdateTS >= txn.committer.forUpdateTS && arg_specifiedForUpdateTS >= txn.aggressiveLockingContext.maxLockedWithConflictTS
 //@   ensures count: txn.lockedCnt <= old(txn.lockedCnt)
+//@   ensures mono: txn.rbIssued >= old(txn.rbIssued)
+//@   ensures issued: old(len(txn.aggressiveLockingContext.lastRetryUnnecessaryLocks)) != 0 ==> txn.rbIssued > old(txn.rbIssued)
 
 // Cancelling releases, in addition, every lock the current attempt holds, and leaves aggressive locking mode.
 //@ func (*KVTxn) CancelAggressiveLocking
@@ -292,6 +294,22 @@ package transaction
 //@   at call(asyncPessimisticRollback) assert released: (forall k string :: inDom(txn.aggressiveLockingContext.currentLockedKeys, k) ==> exists j int :: 0 <= j && j < len(arg_keys) && string(arg_keys[j]) == k) &&
 //@       arg_specifiedForUpdateTS >= txn.committer.forUpdateTS && arg_specifiedForUpdateTS >= txn.aggressiveLockingContext.maxLockedWithConflictTS
 //@   ensures left: txn.aggressiveLockingContext == nil
+//@   ensures issued: txn.rbIssued >= old(txn.rbIssued) && (old(len(txn.aggressiveLockingContext.currentLockedKeys)) != 0 ==> txn.rbIssued > old(txn.rbIssued))
+
+// Finishing aggressive locking releases the locks the last attempt no longer needs and leaves aggressive locking mode.
+//@ func (*KVTxn) DoneAggressiveLocking
+//@   prop C06
+//@   bytes: key
+//@   may-panic
+//@   opaque-callee reset
+//@   ensures left: txn.aggressiveLockingContext == nil
+//@   ensures issued: txn.rbIssued >= old(txn.rbIssued) && (old(len(txn.aggressiveLockingContext.lastRetryUnnecessaryLocks)) != 0 ==> txn.rbIssued > old(txn.rbIssued))
+
+//@ func (*KVTxn) exitAggressiveLockingIfInapplicable
+//@   prop C06
+//@   bytes: key
+//@   may-panic
+//@   ensures issued: txn.rbIssued >= old(txn.rbIssued)
 
 // The background rollback works on a committer that names the transaction's start timestamp and primary and a for-update
 // timestamp not below the transaction's nor below the one asked for, and rolls back exactly the keys it was given.
@@ -302,11 +320,64 @@ package transaction
 //@   opaque-callee pessimisticRollbackMutations NewBackofferWithVars
 //@   at call(pessimisticRollbackMutations) assert exactly: arg_mutations.(*PlainMutations).keys == keys && recv == committer
 
-// A failed lock call rolls back, in the background, all keys of the call (the ones found already locked included) with a
-// for-update timestamp not below the call's and not below the largest conflict timestamp it saw.
+// Ghost bookkeeping of lock calls: LockCtx.debt - the last pessimistic lock request made with this lock context failed in
+// a way that can leave locks in the store: it named several keys (some may have been locked before another failed), or
+// it failed with anything but a write conflict / key-exists answer (the store reports those two without taking the lock);
+// KVTxn.rbIssued counts the background pessimistic rollbacks started.
+//@ ghost field LockCtx.debt bool
+//@ ghost field KVTxn.rbIssued int
+//@ func (*twoPhaseCommitter) pessimisticLockMutations
+//@   trusted
+//@   modifies-also kv.LockCtx.debt of lockCtx
+//@   ensures lockCtx.debt == (result != nil && (len(old(mutations.(*PlainMutations).keys)) > 1 || (!tikverr.IsErrWriteConflict(result) && !tikverr.IsErrKeyExist(result))))
+//@ func (*KVTxn) asyncPessimisticRollback
+//@   trusted
+//@   modifies-also KVTxn.rbIssued of txn
+//@   ensures txn.rbIssued == old(txn.rbIssued) + 1 && result != nil
+
+// A failed lock call that can have left locks is followed, before lockKeys returns, by a background rollback of all keys
+// of the call (the ones found already locked included) with a for-update timestamp not below the call's and not below the
+// largest conflict timestamp it saw.
 //@ func (*KVTxn) lockKeys
 //@   prop C06
 //@   bytes: key
 //@   may-panic
 //@   opaque-callee asyncPessimisticRollback resetPrimary pessimisticLockMutations newTwoPhaseCommitter initKeysAndMutations hashInKeys selectPrimaryForPessimisticLock resetTTLManagerForAggressiveLockingMode filterAggressiveLockedKeys collectAggressiveLockingStats
+//@   requires nodebt: !lockCtx.debt
+//@   at return assert rolledback: lockCtx.debt ==> txn.rbIssued > old(txn.rbIssued)
 //@   at call(asyncPessimisticRollback) assert whole: arg_keys == allKeys && arg_specifiedForUpdateTS >= lockCtx.ForUpdateTS && arg_specifiedForUpdateTS >= lockCtx.MaxLockedWithConflictTS && err != nil
+
+// ---- C06: pessimistic rollback requests really reach the store -----------------------------------------------------------
+// Ghost bookkeeping of a committer's pessimistic rollbacks: rbTried - a rollback of some keys was started through
+// pessimisticRollbackMutations; rbDone - one of them returned without error. (The composition "group by region, run
+// handleSingleBatch on every batch, report the first error" inside doActionOnMutations is assumed, not verified.)
+//@ ghost field twoPhaseCommitter.rbTried bool
+//@ ghost field twoPhaseCommitter.rbDone bool
+//@ func (*twoPhaseCommitter) pessimisticRollbackMutations
+//@   trusted
+//@   modifies-also twoPhaseCommitter.rbTried of c, twoPhaseCommitter.rbDone of c
+//@   ensures c.rbTried && (result == nil ==> c.rbDone) && (result != nil ==> c.rbDone == old(c.rbDone))
+
+// One batch of a pessimistic rollback: the request names the transaction's start timestamp and a for-update timestamp not
+// below the committer's nor below the largest conflict timestamp, and goes to the batch's region. The batch is reported
+// done (nil) only when the store answered without a region error, or when - after a region error - the keys were grouped
+// again and that rollback succeeded: a region error never ends the clean-up silently.
+//@ func (actionPessimisticRollback) handleSingleBatch
+//@   prop C06
+//@   may-panic
+//@   opaque-callee GetKeys RequestSourceFromCtx GetRegionError Backoff Len GetID
+//@   requires fresh: !c.rbDone
+//@   at call(SendReq) assert request: arg_regionID == batch.region && arg_req.Type == tikvrpc.CmdPessimisticRollback && arg_req.Req.(*kvrpcpb.PessimisticRollbackRequest).StartVersion == c.startTS &&
+//@       arg_req.Req.(*kvrpcpb.PessimisticRollbackRequest).ForUpdateTs >= c.forUpdateTS && arg_req.Req.(*kvrpcpb.PessimisticRollbackRequest).ForUpdateTs >= c.maxLockedWithConflictTS
+//@   at return assert answered: result == nil ==> regionErr == nil || c.rbDone
+
+// Filtering the keys of a lock call in aggressive locking mode only moves bookkeeping entries from "locked by the last
+// attempt" to "locked by this attempt" (or hands the key on to be locked again): no lock is released here, so the count of
+// locks held - which Rollback consults before it sends anything - must not drop.
+//@ func (*KVTxn) filterAggressiveLockedKeys
+//@   prop C06
+//@   bytes: key
+//@   may-panic
+//@   opaque-callee trySkipLockingOnRetry mayAggressiveLockingLastLockedKeysExpire StartTS
+//@   loop 1 invariant count: txn.lockedCnt == old(txn.lockedCnt) && txn.aggressiveLockingContext == old(txn.aggressiveLockingContext)
+//@   ensures count: txn.lockedCnt == old(txn.lockedCnt)
